@@ -125,6 +125,12 @@ class SkipFamily(common.Family):
       mal_op = rng.choice(['apply', 'assign', 'filter', 'sink'])
       err = rng.choice(['TypeError', 'TypeError', 'KeyError'])
     cfg = {
+        # the failing source handed over as a bare (non-shardable) sequence of
+        # files: with threads every worker then reads from one shared iterator
+        'src_merged': site == 'source' and rng.random() < 0.35,
+        # (an apply right after the source: the operator that can skip a
+        # failing read of a source without a switch of its own)
+        'src_apply': site == 'source' and rng.random() < 0.5,
         'mal_op': mal_op,
         # a well-behaved sink upstream of the failing operator: it has to be
         # closed too when the error ends the iteration
@@ -152,6 +158,9 @@ class SkipFamily(common.Family):
     t = t.data_source(data_source)
     if up_sink is not None:
       t = t.sink(up_sink, input_keys='x')
+    if cfg.get('src_apply'):
+      t = t.apply(fn=pipes.f_apply_xy, input_keys=('id', 'x', 'g'),
+                  output_keys=('id', 'x', 'g'))
     if cfg['pre']:
       t = t.assign('y', fn=pipes.f_double_plus, input_keys='x')
     site = cfg.get('mal_op') or cfg['site']
@@ -192,7 +201,11 @@ class SkipFamily(common.Family):
     sink = PoisonSink()
     if site == 'source':
       src = FaultyList(list(data), cfg['poison'], cfg['err'])
-      ds = io.SequenceDataSource(src, ignore_error=cfg['src_ignore'])
+      if cfg.get('src_merged'):
+        from ml_metrics._src.utils import iter_utils
+        ds = iter_utils.MergedSequences([src])
+      else:
+        ds = io.SequenceDataSource(src, ignore_error=cfg['src_ignore'])
       _POISON.update(ids=frozenset(), err=cfg['err'], fired=[])
     elif site == 'malformed':
       src = None
@@ -260,9 +273,14 @@ class SkipFamily(common.Family):
   def check(self, cfg, out):
     site = cfg['site']
     ignore = cfg['src_ignore'] if site == 'source' else cfg['ignore']
+    if cfg.get('src_merged'):
+      # no source-level switch: the pipeline-level one decides
+      ignore = cfg['ignore']
     mode = 'skip' if ignore else 'noskip'
     if site == 'source' and not ignore and cfg['ignore']:
       mode = 'noskip-src-only'
+    if cfg.get('src_merged'):
+      mode += '-merged'
     thr = 'threads' if cfg['num_threads'] else 'seq'
     rb = 'rebatch' if cfg['fbs'] else 'plain'
     tag = f'{site}:{mode}:{thr}:{rb}'
@@ -320,7 +338,18 @@ class SkipFamily(common.Family):
         injected = any(m.startswith(cfg['err'] + ':') and pat in m for m in msgs)
       else:
         injected = any(f"{cfg['err']}:" in m and 'poison' in m for m in msgs)
-      if obs['end'] == ['stop']:
+      skipped_cleanly = False
+      if obs['end'] == ['stop'] and mode.startswith('noskip-src-only') and \
+          cfg['err'] in SKIPPABLE:
+        # Skipping is on for the pipeline and off for the source only: an
+        # operator that skips the failing read (everything else delivered,
+        # once, in order) is within "error skipping enabled".
+        want_ = [r for r in ref_rows if elem_of(r) not in set(cfg['poison'])]
+        skipped_cleanly = (got_rows == want_) if not cfg['num_threads'] else (
+            common.multiset(got_rows) == common.multiset(want_))
+      if skipped_cleanly:
+        pass
+      elif obs['end'] == ['stop']:
         res.append(v('surface', f'error-swallowed:{tag}',
                      f"error skipping is {'on' if ignore else 'off'} and "
                      f"{cfg['err']} at {site} {cfg['poison']} is not skippable here, "
